@@ -246,6 +246,9 @@ class CoherentFeedForwardLoop:
         # Update circuit breaker
         if result.success and not result.blocked:
             self._record_success()
+        elif result.action == "FAILURE":
+            # Executor failures are real failures even though the result is blocked
+            self._record_failure()
         elif result.blocked:
             # Blocks are intentional, not failures
             pass
